@@ -497,3 +497,17 @@ Proof.
   unfold wf_fileb, wf_file. rewrite !andb_true_iff. intros ((H1 & H2) & H3).
   repeat split; try (apply wf_axisb_ok; assumption). unfold views_agree. apply mat_eqb_eq. exact H3.
 Qed.
+
+(* what the reference on the right-hand side of the theorems means, spelled out *)
+Theorem filter_ids_spec_proof ids_ a t :
+  ids a (filter_ids ids_ a t) = filter (fun i => zmem i ids_) (ids a t) /\
+  ids (other a) (filter_ids ids_ a t) = ids (other a) t /\
+  mds (other a) (filter_ids ids_ a t) = mds (other a) t /\
+  mds a (filter_ids ids_ a t) = option_map (select (id_mask ids_ (ids a t))) (mds a t) /\
+  ttype (filter_ids ids_ a t) = ttype t /\
+  mat (filter_ids ids_ a t) = match a with Obs => sel_rows (id_mask ids_ (oids t)) (mat t)
+                                          | Samp => sel_cols (id_mask ids_ (sids t)) (mat t) end.
+Proof.
+  unfold filter_ids. destruct a; cbn [sel ids mds other oids sids omd smd ttype mat];
+    repeat split; apply kept_is_filter.
+Qed.
